@@ -7,6 +7,7 @@ import (
 	"time"
 
 	"verif/core"
+	"verif/gen"
 )
 
 func init() { Register("C15", runC15) }
@@ -33,6 +34,14 @@ func runC15(r *core.Run) {
 	}
 	r.Extra["deviation_unguarded"] = "violates " + s.Violated
 	s.Cleanup()
+	pk, err := core.RunTLC(core.TLCOpts{Module: "MC_Log", Cfg: "Log.peeking.cfg", Workers: 2, Timeout: 10 * time.Minute})
+	if err != nil || pk.Violated == "" {
+		r.Machinery("Log (peeking log argument deviation) was expected to violate LogStutter in the model: %v %s", err, tail(pk))
+		pk.Cleanup()
+		return
+	}
+	r.Extra["deviation_peeking"] = "violates " + pk.Violated
+	pk.Cleanup()
 	all, info, ok := buildFaultCases(r, rng, false)
 	if !ok {
 		return
@@ -108,6 +117,76 @@ func runC15(r *core.Run) {
 		r.Extra[k] = v
 	}
 	r.Extra["cases_sampled"] = len(cases)
+	runLogAlign(r)
 	r.Exhaustive = false
 	r.Assumptions = append(r.Assumptions, "a seeded sample of the C01 corpus; quick runs all writers at trace/info and a third of the other level x writer pairs")
+}
+
+// runLogAlign: the model's `win` dimension. The same directories and values are placed at EVERY alignment
+// with the reader's buffer windows (IFD0 at 8 .. 4200: each directory, entry block and value crosses the
+// 4 KiB boundary at some shift) and decoded at the default level and at the enabling levels; value and
+// error must not depend on the level.
+func runLogAlign(r *core.Run) {
+	levels := []string{"trace:discard", "info:discard"}
+	if r.Tier == "thorough" {
+		levels = nil
+		for _, l := range logLevels {
+			levels = append(levels, l+":discard")
+		}
+		levels = append(levels, "info:buf", "info:fail", "trace:buf")
+	}
+	var ops []core.Op
+	type ak struct {
+		bo    string
+		shift int
+		entry string
+	}
+	var keys []ak
+	for _, bo := range []string{"LE", "BE"} {
+		for shift := 8; shift <= 4200; shift++ {
+			data := gen.BuildFullTIFFAt(rand.New(rand.NewSource(r.Seed)), bo, shift)
+			for k := 0; k < 6000; k++ { // image data: more than one buffer window behind the metadata
+				data = append(data, byte(0xA0+k%7))
+			}
+			for ei, entry := range []string{"DecodeTiff", "Parse"} {
+				if r.Tier != "thorough" && (shift+ei)%2 == 1 {
+					continue
+				}
+				ops = append(ops, core.Op{ID: len(ops), Kind: "call", Data: data, Cut: -1, Args: callArgsJSON(entry)})
+				keys = append(keys, ak{bo, shift, entry})
+				for _, l := range levels {
+					ops = append(ops, core.Op{ID: len(ops), Kind: "call", Data: data, Cut: -1, Args: callArgsJSON(entry), Level: l})
+					keys = append(keys, ak{bo, shift, entry})
+				}
+			}
+		}
+	}
+	obs, err := core.RunOps(ops, core.WorkerOpts{Stall: 10 * time.Second, Shards: 14})
+	if err != nil {
+		r.Machinery("worker: %v", err)
+		return
+	}
+	var b *core.Obs
+	for i := range obs {
+		o, op, k := &obs[i], &ops[i], keys[i]
+		r.Cases++
+		if op.Level == "" {
+			b = o
+			if o.Bad() || o.Err != "" {
+				r.Machinery("alignment sweep: the default-level run fails at shift %d (%s%s%s)", k.shift, o.Err, o.Panic, o.Crash)
+				return
+			}
+			continue
+		}
+		desc := map[string]interface{}{"input": fmt.Sprintf("all-tags TIFF (%s), IFD0 at %d", k.bo, k.shift), "entry": k.entry, "logger": op.Level}
+		switch {
+		case o.Bad():
+			r.Violate("log-"+o.BadKind()+"@"+o.Site, fmt.Sprintf("%s %s with the logger at %s (returns normally at the default level): %s%s on the all-tags TIFF with IFD0 at %d", k.entry, o.BadKind(), op.Level, o.Panic, o.Crash, k.shift), replayOf(op, o, desc))
+		case o.Err != b.Err:
+			r.Violate("log-error-differs:"+k.entry+":align", fmt.Sprintf("%s returns error %q with the logger at %s and %q at the default level on the all-tags TIFF with IFD0 at %d", k.entry, o.Err, op.Level, b.Err, k.shift), replayOf(op, o, desc))
+		case string(o.R) != string(b.R):
+			r.Violate("log-value-differs:"+k.entry+":align", fmt.Sprintf("%s returns a different value with the logger at %s than at the default level (%s) on the all-tags TIFF with IFD0 at %d", k.entry, op.Level, firstDiff(o.R, b.R), k.shift), replayOf(op, o, desc))
+		}
+	}
+	r.Extra["alignment_sweep_ops"] = len(ops)
 }
